@@ -604,7 +604,7 @@ func build(thorough bool) spaces {
 	sp.corpusN = len(cs)
 	// thorough: all edits on the whole corpus, huge counts on one stream per sequence of count-owning tags;
 	// quick: truncations and deletions on the whole corpus, substitutions and insertions on one stream per set
-	// of count-owning tags and one per leading tag, huge counts on every second of the former
+	// of count-owning tags and one per leading tag, huge counts on every third of the former
 	editSub, hugeSub := map[string]bool{}, map[string]bool{}
 	if thorough {
 		for _, s := range corpus.FirstPer(cs, corpus.TagSeq) {
@@ -613,7 +613,7 @@ func build(thorough bool) spaces {
 	} else {
 		for i, s := range corpus.FirstPer(cs, corpus.TagSet) {
 			editSub[string(s.Bytes)] = true
-			if i%2 == 0 {
+			if i%3 == 0 {
 				hugeSub[string(s.Bytes)] = true
 			}
 		}
@@ -753,6 +753,9 @@ func build(thorough bool) spaces {
 		sp.risky++
 		sp.riskyNT++
 		for c := 0; c < nCells(domain); c++ {
+			if !thorough && k == 100000 && domain == "io" && c >= len(ioVariants) {
+				continue // quick: the deepest bombs go into interface{} only (every other destination reaches the same recursion through decodeError)
+			}
 			sp.jobs = append(sp.jobs, job{Domain: domain, Bomb: fmt.Sprintf("%s:%d", kind, k), From: c, To: c + 1, Exact: true, NoCount: true})
 		}
 	}
